@@ -117,6 +117,11 @@ func EndBlocker(ctx sdk.Context, k keeper.Keeper) {
 						sdk.NewAttribute(types.AttributeKeyConsumer, requestContext.Consumer),
 					),
 				})
+				// the batch cannot be priced: pause the context (its consumer or owning module can start it
+				// again) and take it out of the queue; an entry left behind at a past height is never
+				// processed again and keeps StartRequestContext from re-queueing the context
+				k.OnRequestContextPaused(ctx, requestContext, requestContextID, "no exchange rate")
+				k.DeleteNewRequestBatch(ctx, requestContextID, ctx.BlockHeight())
 				return
 			}
 
